@@ -862,9 +862,30 @@ fn periodic_quotients(r: &Runner) {
     }
 }
 
+/// Dense operands at every difference of bit lengths 0..=72 (see C10's `c10_bit_gaps`).
+fn gcd_bit_gaps(r: &Runner) {
+    for bits in [128usize, 192, 256] {
+        let n = nlimbs(bits);
+        let g = golden(n * 80);
+        let mut pairs: Vec<(BigUint, BigUint)> = vec![];
+        for salt in 0..48usize {
+            let m: Limbs = (0..n).map(|i| g[(i + salt * n) % g.len()] | if i + 1 == n { 1 << 63 } else { 0 }).collect();
+            let a0: Limbs = (0..n).map(|i| g[(i + salt * n + 7 * n + 3) % g.len()] | if i + 1 == n { 1 << 63 } else { 0 }).collect();
+            for gap in 0..=72usize {
+                pairs.push((big(&m), big(&a0) >> gap));
+            }
+        }
+        r.universe(&format!("dense operands at every bit-length gap 0..=72 ({} pairs)", pairs.len()), bits, pairs.len(), |i, l| {
+            let (a, b) = &pairs[i];
+            gcd_case(l, bits, a, b);
+        });
+    }
+}
+
 fn c12(r: &Runner) {
     compose_universe(r);
     periodic_quotients(r);
+    gcd_bit_gaps(r);
     r.set_rule("S(B)^2 for B <= 8 (10 thorough); all pairs of the wide universe at edge widths; a = b, a = b +- 1; and the QUOTIENT-SEQUENCE universe: the tree of inverse Euclid steps (a,b) -> (q*a+b, a) from seeds (g,0), g in {1,2,2^20,15015,2^61-1,2^64+1,2^128+1}, q in {1,2,3,2^32-1,2^32,2^63,2^64-1}, explored deviation-bounded (q = 1, the Fibonacci path, is free; any other quotient costs 1): EVERY sequence with at most D deviations is followed until the pair no longer fits the width and every node is a checked pair (gcd, lcm, gcd_extended in both argument orders, the Lehmer matrix of the pair and the word-level prefix matrices of its leading 128 bits). from_u64 on all pairs < 2^10 and on B64^2. non-trivial: both operands non-zero and different");
     for bits in 0..=if r.is_thorough() { 10usize } else { 8 } {
         let uv = small_all(bits);
